@@ -348,6 +348,8 @@ MUTANTS = [
 """, "")]),
  ("m-C10-alpha-le", "C10", [("portalwire/lookup.go", "it.queries < alpha; i++", "it.queries <= alpha; i++")]),
  ("m-C10-no-asked-mark", "C10", [("portalwire/lookup.go", "			it.asked[n.ID()] = true\n			it.queries++", "			it.queries++")]),
+ ("m-C10-no-seen-mark", "C10", [("portalwire/lookup.go", "					it.seen[n.ID()] = true\n					it.result.push(n, bucketSize)", "					it.result.push(n, bucketSize)")]),
+ ("m-C10-early-done", "C10", [("portalwire/portal_protocol.go", "		defer wg.Done()\n		for res := range resChan {\n			if res.Flag != ContentEnrsSelector {", "		wg.Done()\n		for res := range resChan {\n			if res.Flag != ContentEnrsSelector {")]),
  ("m-C11-low-port", "C11", [("portalwire/portal_protocol.go", "	if n.UDP() <= 1024 {", "	if n.UDP() < 1024 {")]),
  ("m-C11-no-distance-check", "C11", [("portalwire/portal_protocol.go",
    """		if !slices.Contains(distances, uint(nd)) {
